@@ -24,6 +24,16 @@ type FaultStore struct {
 	// Hook, if set, is called at the beginning of every operation (after the scheduling point).
 	Hook func(op string, key []byte)
 	logs [vsched.MaxThreads + 1][]StoreOp
+	// Journal records every mutation with the state it replaced (crash enumeration: Rollback).
+	Journal []JournalEntry
+}
+
+type JournalEntry struct {
+	Op      string
+	Key     string
+	Prev    DiskRec
+	Existed bool
+	New     DiskRec
 }
 
 type DiskRec struct {
@@ -137,6 +147,8 @@ func (f *FaultStore) Set(key, data []byte, ttl time.Duration) error {
 			// badger: a non-positive TTL expires at once; keep the record invisible
 			rec.ExpireAt = vtime.Now().Unix()
 		}
+		prev, ex := f.Disk[string(key)]
+		f.Journal = append(f.Journal, JournalEntry{Op: "set", Key: string(key), Prev: prev, Existed: ex, New: rec})
 		f.Disk[string(append([]byte(nil), key...))] = rec
 	}
 	f.log(o)
@@ -156,6 +168,8 @@ func (f *FaultStore) Delete(key []byte) error {
 		return fl.Err
 	}
 	if !fl.Drop {
+		prev, ex := f.Disk[string(key)]
+		f.Journal = append(f.Journal, JournalEntry{Op: "delete", Key: string(key), Prev: prev, Existed: ex})
 		delete(f.Disk, string(key))
 	}
 	f.log(o)
@@ -195,3 +209,34 @@ func H64(b []byte) uint64 {
 
 // Register makes pike's store.NewStore(url) return f.
 func (f *FaultStore) Register(url string) { store.VerifRegister(url, f) }
+
+// Rollback undoes the last n mutations (a crash that lost them).
+func (f *FaultStore) Rollback(n int) {
+	for i := 0; i < n && len(f.Journal) > 0; i++ {
+		j := f.Journal[len(f.Journal)-1]
+		f.Journal = f.Journal[:len(f.Journal)-1]
+		if j.Existed {
+			f.Disk[j.Key] = j.Prev
+		} else {
+			delete(f.Disk, j.Key)
+		}
+	}
+}
+
+// TearLast replaces the value written by the last Set with its first n bytes (torn write).
+func (f *FaultStore) TearLast(n int) bool {
+	if len(f.Journal) == 0 {
+		return false
+	}
+	j := f.Journal[len(f.Journal)-1]
+	if j.Op != "set" {
+		return false
+	}
+	r := f.Disk[j.Key]
+	if n > len(r.Data) {
+		n = len(r.Data)
+	}
+	r.Data = append([]byte(nil), r.Data[:n]...)
+	f.Disk[j.Key] = r
+	return true
+}
